@@ -156,5 +156,7 @@ def run(facts, tier):
     roots = [facts.fn("xml_info::attr_value_from_name")["id"]]
     reach, _ = facts.reachable(roots)
     c03.r03_3(facts, res, "R02-2r", reach, {})
+    import guards
+    guards.rule(facts, res, "R02-2g", [facts.fns[x] for x in reach if x in facts.fns], want=("G1", "G2", "G3"), floor=1)
     res.functions_analysed = res.extra["grammar"]["productions"]
     return res
